@@ -11,7 +11,7 @@ CONFIG = {
     'extra_gen': [('harness-conc', 'conctab', 'Gen/ConcTab.v')],   # the lock table, regenerated from /repo's AST
     'coq_timeout': 2400,
     'run_timeout': {'quick': 900, 'thorough': 14400},
-    'vm_sample': {'quick': 1500, 'thorough': 6000},
+    'vm_sample': {'quick': 400, 'thorough': 3000},
     'rule': 'three parts. (1) locks: per function of memmap.go and mem/{file,dir,dirmap}.go the sequence of lock operations '
             '(mu.Lock/RLock/Unlock/RUnlock, FileData mutexes, deferred or not, with the surrounding if/for/switch and the calls of '
             'lock-taking functions, log.Panic) extracted from the AST vs the table declared in Model/Conc.v. (2) pair matrix: every pair '
